@@ -51,6 +51,7 @@ CONSTANTS
   Scenarios,             \* subset of {"local","remote"}
   AlReader,              \* BOOLEAN: a client reads the mirrored copy on the submitting node ...
   AlOffsets,             \* ... from one of these start offsets
+  ReadAhead,             \* how much the monitor's bufio.Reader can take in beyond the header line, in units
   A_CreateBeforePoll,    \* BOOLEAN assumption: monitorRemoteStdout has created the local stdout file (a local
                          \* OpenFile, first thing it does) before monitorRemoteStatus, started at the same moment,
                          \* has dialled the remote node and got its first reply.  With FALSE, TLC shows the lead
@@ -79,10 +80,12 @@ VARIABLES
   aState, aSize,   \* local record of the remote unit
   pcS, sessS,      \* monitorRemoteStatus and its connection
   pcO, sessO, reqFrom, wire,  \* monitorRemoteStdout, its connection, the offset it asked for, bytes in flight
-  linkUp, relayUp, faults
+  linkUp, relayUp, faults,
+  rbuf,       \* bytes the monitor's bufio.Reader has read ahead together with the "Streaming results" header line
+  aUp         \* the submitting daemon is running
 
 vars == <<scen, out, nchunks, fileExists, dState, dSize, mState, mSize, cancel, cUp, rd,
-          lExists, lout, aState, aSize, pcS, sessS, pcO, sessO, reqFrom, wire, linkUp, relayUp, faults>>
+          lExists, lout, aState, aSize, pcS, sessS, pcO, sessO, reqFrom, wire, linkUp, relayUp, faults, rbuf, aUp>>
 
 Readers == {"cl", "ms", "al"}
 
@@ -113,11 +116,12 @@ Init ==
   /\ pcO = IF scen = "remote" THEN "create" ELSE "off"
   /\ sessS = "none" /\ sessO = "none" /\ reqFrom = 0 /\ wire = <<>>
   /\ linkUp = TRUE /\ relayUp = TRUE /\ faults = 0
+  /\ rbuf = <<>> /\ aUp = TRUE
 
 \* ---------------------------------------------------------------- producer (commandRunner + payload)
 Running == fileExists /\ dState \in {"Pending", "Running"} /\ cancel = "none"
 
-UNCH_A == UNCHANGED <<lExists, lout, aState, aSize, pcS, sessS, pcO, sessO, reqFrom, wire, linkUp, relayUp, faults>>
+UNCH_A == UNCHANGED <<lExists, lout, aState, aSize, pcS, sessS, pcO, sessO, reqFrom, wire, linkUp, relayUp, faults, rbuf, aUp>>
 
 \* commandRunner: status Pending "Not started yet" is there; the stdout file is created, the payload started
 P_Start ==
@@ -180,7 +184,7 @@ SrcSize(r)   == IF OnA(r) THEN Len(lout) ELSE out
 SrcData(r, a, b) == IF OnA(r) THEN SubSeq(lout, a + 1, b) ELSE Bytes(a, b)
 SrcState(r)  == IF OnA(r) THEN aState ELSE mState
 SrcStatSize(r) == IF OnA(r) THEN aSize ELSE mSize
-NodeUp(r)    == IF OnA(r) THEN TRUE ELSE cUp
+NodeUp(r)    == IF OnA(r) THEN aUp ELSE cUp
 
 UNCH_P == UNCHANGED <<scen, out, nchunks, fileExists, dState, dSize, mState, mSize, cancel, cUp>>
 
@@ -209,7 +213,7 @@ R_Read(r) ==
           /\ wire' = IF r = "ms" THEN wire \o SrcData(r, pos, pos + n) ELSE wire
      ELSE /\ rd' = [rd EXCEPT ![r].pc = "eof"]
           /\ wire' = wire
-  /\ UNCH_P /\ UNCHANGED <<lExists, lout, aState, aSize, pcS, sessS, pcO, sessO, reqFrom, linkUp, relayUp, faults>>
+  /\ UNCH_P /\ UNCHANGED <<lExists, lout, aState, aSize, pcS, sessS, pcO, sessO, reqFrom, linkUp, relayUp, faults, rbuf, aUp>>
 
 \* after EOF: unit.Status(); finish iff finished(State) /\ filePos >= StdoutSize, else sleep 250 ms and read on
 R_EOFCheck(r) ==
@@ -232,7 +236,7 @@ S_Connect ==
   /\ pcS = "connect" /\ Connected
   /\ A_CreateBeforePoll => lExists
   /\ pcS' = "poll" /\ sessS' = "open"
-  /\ UNCH_R /\ UNCHANGED <<rd, lExists, lout, aState, aSize, pcO, sessO, reqFrom, wire, linkUp, relayUp, faults>>
+  /\ UNCH_R /\ UNCHANGED <<rd, lExists, lout, aState, aSize, pcO, sessO, reqFrom, wire, linkUp, relayUp, faults, rbuf, aUp>>
 
 \* "work status": the reply (the remote daemon's in-memory record) is written into the local record
 S_Poll ==
@@ -242,19 +246,19 @@ S_Poll ==
           /\ UNCHANGED <<pcS, sessS>>
      ELSE /\ pcS' = "connect" /\ sessS' = "none"
           /\ UNCHANGED <<aState, aSize>>
-  /\ UNCH_R /\ UNCHANGED <<rd, lExists, lout, pcO, sessO, reqFrom, wire, linkUp, relayUp, faults>>
+  /\ UNCH_R /\ UNCHANGED <<rd, lExists, lout, pcO, sessO, reqFrom, wire, linkUp, relayUp, faults, rbuf, aUp>>
 
 \* the stdout monitor has returned and cancelled the job context
 S_Stop ==
   /\ pcS \in {"connect", "poll"} /\ pcO = "done"
   /\ pcS' = "done" /\ sessS' = "none"
-  /\ UNCH_R /\ UNCHANGED <<rd, lExists, lout, aState, aSize, pcO, sessO, reqFrom, wire, linkUp, relayUp, faults>>
+  /\ UNCH_R /\ UNCHANGED <<rd, lExists, lout, aState, aSize, pcO, sessO, reqFrom, wire, linkUp, relayUp, faults, rbuf, aUp>>
 
 \* ---------------------------------------------------------------- submitting node: monitorRemoteStdout
 O_Create ==
   /\ pcO = "create"
   /\ lExists' = TRUE /\ pcO' = "load"
-  /\ UNCH_R /\ UNCHANGED <<rd, lout, aState, aSize, pcS, sessS, sessO, reqFrom, wire, linkUp, relayUp, faults>>
+  /\ UNCH_R /\ UNCHANGED <<rd, lout, aState, aSize, pcS, sessS, sessO, reqFrom, wire, linkUp, relayUp, faults, rbuf, aUp>>
 
 \* Load(); diskStdoutSize := size of the local file; decide
 O_Load ==
@@ -263,38 +267,55 @@ O_Load ==
      IF IsComplete(aState) /\ disk >= aSize THEN pcO' = "done" /\ UNCHANGED reqFrom
      ELSE IF disk < aSize THEN pcO' = "connect" /\ reqFrom' = disk
      ELSE UNCHANGED <<pcO, reqFrom>>
-  /\ UNCH_R /\ UNCHANGED <<rd, lExists, lout, aState, aSize, pcS, sessS, sessO, wire, linkUp, relayUp, faults>>
+  /\ UNCH_R /\ UNCHANGED <<rd, lExists, lout, aState, aSize, pcS, sessS, sessO, wire, linkUp, relayUp, faults, rbuf, aUp>>
 
 O_Connect ==
   /\ pcO = "connect" /\ Connected
   /\ pcO' = "request" /\ sessO' = "open"
-  /\ UNCH_R /\ UNCHANGED <<rd, lExists, lout, aState, aSize, pcS, sessS, reqFrom, wire, linkUp, relayUp, faults>>
+  /\ UNCH_R /\ UNCHANGED <<rd, lExists, lout, aState, aSize, pcS, sessS, reqFrom, wire, linkUp, relayUp, faults, rbuf, aUp>>
 
-\* "work results <remote id> <reqFrom>" and the header line: a reader starts on the remote node
+\* "work results <remote id> <reqFrom>" is written: a reader starts on the remote node (it answers with the header
+\* line at once and with the first data after its first 250 ms sleep)
 O_Request ==
   /\ pcO = "request"
   /\ IF sessO = "open"
-     THEN /\ pcO' = "copy"
+     THEN /\ pcO' = "header"
           /\ rd' = [rd EXCEPT !["ms"] = [pc |-> "wait", p |-> reqFrom, pos |-> reqFrom, sent |-> <<>>]]
           /\ UNCHANGED sessO
      ELSE /\ pcO' = "load" /\ sessO' = "none" /\ UNCHANGED rd
   /\ wire' = <<>>
-  /\ UNCH_R /\ UNCHANGED <<lExists, lout, aState, aSize, pcS, sessS, reqFrom, linkUp, relayUp, faults>>
+  /\ UNCH_R /\ UNCHANGED <<lExists, lout, aState, aSize, pcS, sessS, reqFrom, linkUp, relayUp, faults, rbuf, aUp>>
 
-\* io.Copy(local stdout opened O_APPEND, connection): what has arrived is appended
+\* reader.ReadString('\n') on the bufio.Reader around the connection: the header line - and, when the link delivers in
+\* a burst (the header held up, lost and retransmitted behind the data, ...), the first data in the SAME read: they stay in
+\* the reader's buffer (rbuf).  The remote reader may have taken any number of steps since O_Request: that is the burst.
+O_Header ==
+  /\ pcO = "header"
+  /\ IF sessO = "open"
+     THEN /\ pcO' = "copy"
+          /\ LET k == Min2(ReadAhead, Len(wire)) IN
+             /\ rbuf' = SubSeq(wire, 1, k)
+             /\ wire' = SubSeq(wire, k + 1, Len(wire))
+          /\ UNCHANGED <<sessO, rd>>
+     ELSE /\ pcO' = "load" /\ sessO' = "none" /\ wire' = <<>> /\ rbuf' = <<>>
+          /\ rd' = [rd EXCEPT !["ms"] = Idle]
+  /\ UNCH_R /\ UNCHANGED <<lExists, lout, aState, aSize, pcS, sessS, reqFrom, linkUp, relayUp, faults, aUp>>
+
+\* io.Copy(local stdout opened O_APPEND, reader): first what the reader has buffered, then what arrives
 O_Deliver ==
-  /\ pcO = "copy" /\ wire # <<>>
-  /\ lout' = lout \o wire /\ wire' = <<>>
-  /\ UNCH_R /\ UNCHANGED <<rd, lExists, aState, aSize, pcS, sessS, pcO, sessO, reqFrom, linkUp, relayUp, faults>>
+  /\ pcO = "copy" /\ (rbuf # <<>> \/ wire # <<>>)
+  /\ lout' = lout \o rbuf \o wire /\ wire' = <<>> /\ rbuf' = <<>>
+  /\ UNCH_R /\ UNCHANGED <<rd, lExists, aState, aSize, pcS, sessS, pcO, sessO, reqFrom, linkUp, relayUp, faults, aUp>>
 
-\* io.Copy returns: the remote stream ended (nil) or the connection broke (error); both go round the loop
+\* io.Copy returns: the remote stream ended (nil) or the connection broke (error); both go round the loop.
+\* What the reader had buffered has been written before either.
 O_CopyEnd ==
-  /\ pcO = "copy"
+  /\ pcO = "copy" /\ rbuf = <<>>
   /\ \/ sessO = "open" /\ rd["ms"].pc = "closed" /\ wire = <<>>
      \/ sessO = "broken"
   /\ pcO' = "load" /\ sessO' = "none" /\ wire' = <<>>
   /\ rd' = [rd EXCEPT !["ms"] = Idle]
-  /\ UNCH_R /\ UNCHANGED <<lExists, lout, aState, aSize, pcS, sessS, reqFrom, linkUp, relayUp, faults>>
+  /\ UNCH_R /\ UNCHANGED <<lExists, lout, aState, aSize, pcS, sessS, reqFrom, linkUp, relayUp, faults, rbuf, aUp>>
 
 \* ---------------------------------------------------------------- faults and repairs
 \* every open connection between the two nodes breaks; the remote reader loses its client; of the bytes in
@@ -305,29 +326,29 @@ Break(w) ==
   /\ wire' = w
 
 
-CanFault(k) == scen = "remote" /\ faults < MaxFaults /\ k \in FaultKinds /\ Connected
+CanFault(k) == scen = "remote" /\ faults < MaxFaults /\ k \in FaultKinds /\ Connected /\ aUp
 
 LinkCut ==
   /\ CanFault("cut")
   /\ \E w \in Prefixes(wire) : Break(w)
   /\ linkUp' = FALSE /\ faults' = faults + 1
   /\ rd' = [rd EXCEPT !["ms"] = IF @.pc \in {"wait", "read", "eof"} THEN [@ EXCEPT !.pc = "dead"] ELSE @]
-  /\ UNCH_R /\ UNCHANGED <<lExists, lout, aState, aSize, pcS, pcO, reqFrom, relayUp>>
+  /\ UNCH_R /\ UNCHANGED <<lExists, lout, aState, aSize, pcS, pcO, reqFrom, relayUp, rbuf, aUp>>
 
 Reconnect ==
   /\ ~linkUp /\ linkUp' = TRUE
-  /\ UNCH_R /\ UNCHANGED <<rd, lExists, lout, aState, aSize, pcS, sessS, pcO, sessO, reqFrom, wire, relayUp, faults>>
+  /\ UNCH_R /\ UNCHANGED <<rd, lExists, lout, aState, aSize, pcS, sessS, pcO, sessO, reqFrom, wire, relayUp, faults, rbuf, aUp>>
 
 RelayRestart ==
   /\ CanFault("relay")
   /\ \E w \in Prefixes(wire) : Break(w)
   /\ relayUp' = FALSE /\ faults' = faults + 1
   /\ rd' = [rd EXCEPT !["ms"] = IF @.pc \in {"wait", "read", "eof"} THEN [@ EXCEPT !.pc = "dead"] ELSE @]
-  /\ UNCH_R /\ UNCHANGED <<lExists, lout, aState, aSize, pcS, pcO, reqFrom, linkUp>>
+  /\ UNCH_R /\ UNCHANGED <<lExists, lout, aState, aSize, pcS, pcO, reqFrom, linkUp, rbuf, aUp>>
 
 RelayUp ==
   /\ ~relayUp /\ relayUp' = TRUE
-  /\ UNCH_R /\ UNCHANGED <<rd, lExists, lout, aState, aSize, pcS, sessS, pcO, sessO, reqFrom, wire, linkUp, faults>>
+  /\ UNCH_R /\ UNCHANGED <<rd, lExists, lout, aState, aSize, pcS, sessS, pcO, sessO, reqFrom, wire, linkUp, faults, rbuf, aUp>>
 
 \* the remote daemon is killed; its detached runner goes on writing output and status.
 \* Assumption RestartWhilePending (C04/C13 territory, not modelled here): the daemon is not restarted while
@@ -338,7 +359,7 @@ RemoteRestart ==
   /\ cUp' = FALSE /\ faults' = faults + 1
   /\ rd' = [rd EXCEPT !["ms"] = IF @.pc \in {"wait", "read", "eof"} THEN [@ EXCEPT !.pc = "dead"] ELSE @]
   /\ UNCHANGED <<scen, out, nchunks, fileExists, dState, dSize, mState, mSize, cancel>>
-  /\ UNCHANGED <<lExists, lout, aState, aSize, pcS, pcO, reqFrom, linkUp, relayUp>>
+  /\ UNCHANGED <<lExists, lout, aState, aSize, pcS, pcO, reqFrom, linkUp, relayUp, rbuf, aUp>>
 
 \* restart: the unit is found on disk and its record loaded
 RemoteUp ==
@@ -346,16 +367,33 @@ RemoteUp ==
   /\ mState' = dState /\ mSize' = dSize
   /\ UNCHANGED <<scen, out, nchunks, fileExists, dState, dSize, cancel, rd>> /\ UNCH_A
 
+\* the submitting daemon is killed: its monitors, its clients and what they held in memory are gone; the local record and
+\* the local stdout file stay.  (The remote reader notices later that its client has vanished.)
+SubmitterRestart ==
+  /\ CanFault("submitter")
+  /\ aUp' = FALSE /\ faults' = faults + 1
+  /\ pcS' = "down" /\ pcO' = "down" /\ sessS' = "none" /\ sessO' = "none" /\ wire' = <<>> /\ rbuf' = <<>>
+  /\ rd' = [rd EXCEPT !["ms"] = Idle,
+                      !["al"] = IF @.pc \in {"wait", "read", "eof"} THEN [@ EXCEPT !.pc = "dead"] ELSE @]
+  /\ UNCH_R /\ UNCHANGED <<lExists, lout, aState, aSize, reqFrom, linkUp, relayUp>>
+
+\* restart on the same data directory: the unit is found on disk; remoteUnit.Restart (RemoteStarted) resumes
+\* monitoring - both monitors start again, whatever the local record says
+SubmitterUp ==
+  /\ ~aUp /\ aUp' = TRUE
+  /\ pcS' = "connect" /\ pcO' = "create"
+  /\ UNCH_R /\ UNCHANGED <<rd, lExists, lout, aState, aSize, sessS, sessO, reqFrom, wire, linkUp, relayUp, faults, rbuf>>
+
 \* ---------------------------------------------------------------- next-state relation
 Sizes == IF scen = "local" THEN ChunkSizes ELSE RChunkSizes
 
 Producer == P_Start \/ P_StartFail \/ P_Record \/ (\E k \in Sizes : P_Write(k)) \/ (\E st \in {"Succeeded", "Failed"} : P_Finish(st))
             \/ C_Kill \/ C_Mark \/ M_Load
 ReaderStep(r) == R_WaitFile(r) \/ R_Read(r) \/ R_EOFCheck(r)
-ReaderUp(r) == (r = "al" \/ cUp) /\ ReaderStep(r)
-Monitors == S_Connect \/ S_Poll \/ S_Stop \/ O_Create \/ O_Load \/ O_Connect \/ O_Request \/ O_Deliver \/ O_CopyEnd
-Faults == LinkCut \/ RelayRestart \/ RemoteRestart
-Repairs == Reconnect \/ RelayUp \/ RemoteUp
+ReaderUp(r) == NodeUp(r) /\ ReaderStep(r)
+Monitors == S_Connect \/ S_Poll \/ S_Stop \/ O_Create \/ O_Load \/ O_Connect \/ O_Request \/ O_Header \/ O_Deliver \/ O_CopyEnd
+Faults == LinkCut \/ RelayRestart \/ RemoteRestart \/ SubmitterRestart
+Repairs == Reconnect \/ RelayUp \/ RemoteUp \/ SubmitterUp
 
 Next ==
   \/ Producer
@@ -370,7 +408,7 @@ Fairness ==
   /\ WF_vars(P_Start) /\ WF_vars(\E st \in {"Succeeded", "Failed"} : P_Finish(st)) /\ WF_vars(C_Mark) /\ WF_vars(M_Load)
   /\ \A r \in Readers : WF_vars(ReaderUp(r))
   /\ WF_vars(S_Connect) /\ WF_vars(S_Poll) /\ WF_vars(S_Stop)
-  /\ WF_vars(O_Create) /\ WF_vars(O_Load) /\ WF_vars(O_Connect) /\ WF_vars(O_Request) /\ WF_vars(O_Deliver) /\ WF_vars(O_CopyEnd)
+  /\ WF_vars(O_Create) /\ WF_vars(O_Load) /\ WF_vars(O_Connect) /\ WF_vars(O_Request) /\ WF_vars(O_Header) /\ WF_vars(O_Deliver) /\ WF_vars(O_CopyEnd)
   /\ WF_vars(Repairs)
 
 Spec == Init /\ [][Next]_vars /\ Fairness
@@ -429,6 +467,9 @@ W_NoRemoteRestart   == ~(Converged /\ faults = MaxFaults /\ cUp /\ \E r \in {"ms
 W_NoStatusAheadOfOutput == ~(rd["al"].pc = "eof" /\ IsComplete(aState) /\ rd["al"].pos = Len(lout) /\ Len(lout) < aSize)
                            \* final status mirrored before the tail of the output, a client at EOF of the local copy:
                            \* only the test against the RECORDED size keeps that stream open
+W_NoReadAhead       == rbuf = <<>>                                        \* header and first data in one read (burst)
+W_NoReadAheadLost   == ~(rbuf # <<>> /\ sessO = "broken")                 \* ... and the connection breaks before the copy
+W_NoSubmitterShort  == ~(~aUp /\ IsComplete(aState) /\ Len(lout) < aSize)  \* submitter dies: record final, copy short
 W_NoAlClosed        == ~(rd["al"].pc = "closed" /\ Len(rd["al"].sent) > 0 /\ faults > 0)
 
 \* ---------------------------------------------------------------- vectors for the harness (cmd/vres)
@@ -454,5 +495,7 @@ FaultSchedules ==
       \A i \in 1..(Len(s) - 1) : s[i].when <= s[i + 1].when }
 
 ASSUME DumpLocal = "" \/ ndJsonSerialize(DumpLocal, SetToSeq(LocalVectorsOK))
-ASSUME DumpRemote = "" \/ ndJsonSerialize(DumpRemote, SetToSeq({ [faults |-> s] : s \in FaultSchedules }))
+\* link: how the relay in front of the submitting node delivers - as it comes, or in bursts (a reply line and the data
+\* written after it become readable in the same instant: the O_Header step with wire # <<>>)
+ASSUME DumpRemote = "" \/ ndJsonSerialize(DumpRemote, SetToSeq({ [faults |-> s, link |-> l] : s \in FaultSchedules, l \in {"plain", "bursty"} }))
 =============================================================================
